@@ -59,7 +59,7 @@ MC_SNAP2_F = mc_conc({'MAXOPS': '2', 'TRANSPORT': 'log', 'SNAPFAILS': 'TRUE', 'R
 
 PROPS = {
     'C01': seq_prop('c01', 150, 2500, mc=[MC_STORE_STRICT, MC_STORE_ASBUILT, MC_STORE_NEG, MC_SCHEMA, MC_SCHEMA_COLS], more=[fam('seq', 'c01w', 24, 300)]),
-    'C02': seq_prop('c02', 120, 2000, mc=[MC_ATOMIC], more=[fam('seq', 'c02k', 60, 1000), fam('seq', 'c01w', 16, 200), fam('conc', 'c02', 16, 300)]),
+    'C02': seq_prop('c02', 120, 2000, mc=[MC_ATOMIC], more=[fam('seq', 'c02k', 60, 1000), fam('seq', 'c01w', 16, 200), fam('conc', 'c02', 16, 300), fam('conc', 'c02i', 24, 300)]),
     'C03': seq_prop('c03', 150, 2500, mc=[MC_STORE_STRICT, MC_STORE_ASBUILT, MC_SCHEMA, MC_SCHEMA_COLS]),
     'C04': {'level': 'model_checking', 'mc': [], 'trace': COLUMN_TRACE, 'assumptions': [],
             'families': [
